@@ -221,7 +221,11 @@ NoReplyFlag(call) == (call.fl % 2) = 1
 Answer(s, call, rep) ==
   /\ out' = Capture(Now, call, s, NoSlot) \o FromBus(Now, s, rep) \o EavesCopies(Now, s, call, NoSlot)
   /\ UNCHANGED <<cfg, cst, dying, uid, uname, everNames, queue, rules, pend, mon>>
-AnswerErr(s, call, ename) == Answer(s, call, ErrReply(DstOf(s), call.ser, ename))
+\* a refused or failed call is not matched against the rules of third parties at all (bus_dispatch jumps past
+\* bus_dispatch_matches): only monitors see it
+AnswerErr(s, call, ename) ==
+  /\ out' = Capture(Now, call, s, NoSlot) \o FromBus(Now, s, ErrReply(DstOf(s), call.ser, ename))
+  /\ UNCHANGED <<cfg, cst, dying, uid, uname, everNames, queue, rules, pend, mon>>
 
 Hello(s, ser, fl, new) ==
   LET call == DriverCall(s, ser, BUS, S_Hello, <<>>, <<>>, fl) IN
@@ -320,7 +324,7 @@ PingAndClose(s, ser) ==
   /\ out' = Capture(Now, call, s, NoSlot)
             \o FromBus(Now, s, IF DriverGate(s, call) THEN Reply(DstOf(s), ser, <<>>, <<>>, "exact")
                                 ELSE ErrReply(DstOf(s), ser, E_AccessDenied))
-            \o EavesCopies(Now, s, call, NoSlot)
+            \o (IF DriverGate(s, call) THEN EavesCopies(Now, s, call, NoSlot) ELSE <<>>)
   /\ dying' = [dying EXCEPT ![s] = TRUE]
   /\ UNCHANGED <<cfg, cst, uid, uname, everNames, queue, rules, pend, mon>>
 
@@ -371,7 +375,6 @@ Dev_RemoveMatchAckThenError(s, ser, fl, text) ==
   /\ out' = Capture(Now, call, s, NoSlot)
             \o FromBus(Now, s, Reply(uname[s], ser, <<>>, <<>>, "exact"))
             \o FromBus(Now, s, ErrReply(uname[s], ser, E_MatchRuleNotFound))
-            \o EavesCopies(Now, s, call, NoSlot)
   /\ UNCHANGED <<cfg, cst, dying, uid, uname, everNames, queue, rules, pend, mon>>
 
 \* ------------------------------------------------------------------ disconnect processing
@@ -401,7 +404,9 @@ Drop(s, order) ==
   /\ order \in [1..Cardinality(NamesOf(queue, s)) -> NamesOf(queue, s)]
   /\ \A i, j \in DOMAIN order : i # j => order[i] # order[j]
   /\ LET wasActive == cst[s] = "active"
-         rl2 == IF wasActive THEN PruneRules(rules, s, uname[s]) ELSE rules
+         \* (the scan that also discards other connections' rules naming the gone unique name only runs when the
+         \* disconnecting connection held at least one rule itself)
+         rl2 == IF wasActive /\ rules[s] # <<>> THEN PruneRules(rules, s, uname[s]) ELSE rules
          W0 == World(cst, uname, queue, rl2, [mon EXCEPT ![s] = <<>>])
          d == DropNames(W0, s, order, 1)
          cs2 == [cst EXCEPT ![s] = "absent"]
